@@ -54,6 +54,17 @@ SHAPES = [
     ("S: (x | y z)* c;", "S: S_g1_0 c;\nS_g1_0: S_g1_1 {nops} | EMPTY;\n@collect\nS_g1_1: S_g1_1 S_g1 | S_g1;\nS_g1: x | y z;"),
     ("S: ((x y)? c)+;", "S: S_g1_1;\n@collect\nS_g1_1: S_g1_1 S_g1 | S_g1;\nS_g1: S_g2_opt c;\n@optional\nS_g2_opt: S_g2 | EMPTY;\nS_g2: x y;"),
     ("S: x+ y*;", "S: x_1 y_0;\n@collect\nx_1: x_1 x | x;\ny_0: y_1 {nops} | EMPTY;\n@collect\ny_1: y_1 y | y;"),
+    # elements that are falsy values (empty lists, None) must stay in the list
+    ("S: R+[c];\nR: x*;", "S: R_1_c;\n@collect_sep\nR_1_c: R_1_c c R | R;\nR: x_0;\nx_0: x_1 {nops} | EMPTY;\n@collect\nx_1: x_1 x | x;"),
+    ("S: R+ z;\nR: y x?;", "S: R_1 z;\n@collect\nR_1: R_1 R | R;\nR: y x_opt;\n@optional\nx_opt: x | EMPTY;"),
+    ("S: (x? c)+;", "S: S_g1_1;\n@collect\nS_g1_1: S_g1_1 S_g1 | S_g1;\nS_g1: x_opt c;\n@optional\nx_opt: x | EMPTY;"),
+    # an explicit action on the enclosing rule is not the group's action
+    ("@wrap\nS: x (c y)?;", "@wrap\nS: x S_g1_opt;\n@optional\nS_g1_opt: S_g1 | EMPTY;\nS_g1: c y;"),
+    ("@wrap\nS: (x y)+ z | z;", "@wrap\nS: S_g1_1 z | z;\n@collect\nS_g1_1: S_g1_1 S_g1 | S_g1;\nS_g1: x y;"),
+    ("S: A+;\n@wrap\nA: x (y | z)*;", "S: A_1;\n@collect\nA_1: A_1 A | A;\n@wrap\nA: x A_g1_0;\nA_g1_0: A_g1_1 {nops} | EMPTY;\n@collect\nA_g1_1: A_g1_1 A_g1 | A_g1;\nA_g1: y | z;"),
+    # what follows the repetition starts like its element: {nops} on x_0: x_1 decides
+    ("S: x* x;", "S: x_0 x;\nx_0: x_1 {nops} | EMPTY;\n@collect\nx_1: x_1 x | x;"),
+    ("S: A* B;\nA: x y;\nB: x | z;", "S: A_0 B;\nA_0: A_1 {nops} | EMPTY;\n@collect\nA_1: A_1 A | A;\nA: x y;\nB: x | z;"),
     ("S: A? B?;\nA: x+;\nB: y | x c;", "S: A_opt B_opt;\n@optional\nA_opt: A | EMPTY;\n@optional\nB_opt: B | EMPTY;\nA: x_1;\n@collect\nx_1: x_1 x | x;\nB: y | x c;"),
 ]
 
@@ -71,6 +82,47 @@ IMPORT_CASE = {
     "flat": "S: Item_1_c Tail_opt;\n@collect_sep\nItem_1_c: Item_1_c c Item | Item;\n@optional\nTail_opt: Tail | EMPTY;\n"
             "Item: x y_0 | z;\ny_0: y_1 {nops} | EMPTY;\n@collect\ny_1: y_1 y | y;\nTail: y_1;" + T,
 }
+
+
+def wrap(_, nodes):
+    return ("wrap", nodes)
+
+
+USER_ACTIONS = {"wrap": wrap}
+# The documented list/option semantics written independently of parglare.actions: the expansion side of
+# the comparison uses these, so that a change to the built-in collect/optional actions does not move both sides.
+INDEP_ACTIONS = {
+    "wrap": wrap,
+    "vcollect": [lambda _, n: n[0] + [n[1]], lambda _, n: [n[0]]],
+    "vcollect_sep": [lambda _, n: n[0] + [n[2]], lambda _, n: [n[0]]],
+    "voptional": [lambda _, n: n[0], lambda _, n: None],
+    "vstar": [lambda _, n: n[0], lambda _, n: []],
+}
+
+
+def indep(expansion):
+    """The expansion with its built-in action names replaced by the independent ones."""
+    import re
+    out = []
+    for line in expansion.split("\n"):
+        if re.match(r"^\w+_0(_\w+)?: ", line):
+            out.append("@vstar")
+        out.append({"@collect": "@vcollect", "@collect_sep": "@vcollect_sep", "@optional": "@voptional"}.get(line, line))
+    return "\n".join(out)
+
+
+def structure(g):
+    """Productions and rule actions of a grammar, as the table construction and the action call see them."""
+    prods = []
+    for pr in g.productions[1:]:
+        rhs = tuple(pr.rhs[i].name for i in range(len(pr.rhs)))
+        prods.append((pr.symbol.name, rhs, pr.assoc, pr.prior, bool(pr.nops), bool(pr.nopse), bool(pr.dynamic)))
+    acts = {}
+    for nt in g.nonterminals.values():
+        a = nt.action_name
+        a = {"vcollect": "collect", "vcollect_sep": "collect_sep", "voptional": "optional", "vstar": None}.get(a, a)
+        acts[nt.name] = a
+    return sorted(prods), sorted((k, str(v)) for k, v in acts.items() if k != "S'")
 
 
 def units(tier):
@@ -102,14 +154,42 @@ def run(p, text):
         return ("raises", type(e).__name__)
 
 
-def compare(res, st, name, ga, gb, inputs, kinds=("LR", "GLR"), before_build=None):
+def build(kind, g, actions):
+    try:
+        if kind == "LR":
+            return Parser(g, actions=actions)
+        if kind == "GLR":
+            return GLRParser(g, actions=actions)
+        if kind == "GLR-ps":
+            return GLRParser(g, actions=actions, prefer_shifts=True)
+        if kind == "LR-nops":
+            return Parser(g, actions=actions, prefer_shifts=False, prefer_shifts_over_empty=False)
+    except (SRConflicts, RRConflicts) as e:
+        return type(e).__name__
+
+
+def compare(res, st, name, ga, gb, inputs, kinds=("LR", "GLR", "GLR-ps", "LR-nops"), before_build=None,
+            check_structure=True):
+    if check_structure:
+        sa, sb = structure(ga), structure(gb)
+        res["evaluations"] += 1
+        if sa != sb:
+            da = [x for x in sa[0] + sa[1] if x not in sb[0] + sb[1]]
+            db = [x for x in sb[0] + sb[1] if x not in sa[0] + sa[1]]
+            res["violations"].append({"kind": "sugared-grammar-productions-differ-from-documented-expansion",
+                                      "case": {"shape": name}, "observed": str(da)[:300], "expected": str(db)[:300]})
     for kind in kinds:
-        try:
-            if before_build:
-                before_build()      # e.g. remove the table cache another parser kind wrote (finding F-CACHE-1)
-            pa = Parser(ga) if kind == "LR" else GLRParser(ga)
-            pb = Parser(gb) if kind == "LR" else GLRParser(gb)
-        except (SRConflicts, RRConflicts):
+        if before_build:
+            before_build()      # e.g. remove the table cache another parser kind wrote (finding F-CACHE-1)
+        pa = build(kind, ga, USER_ACTIONS)
+        pb = build(kind, gb, INDEP_ACTIONS)
+        if isinstance(pa, str) or isinstance(pb, str):
+            res["evaluations"] += 1
+            if pa != pb and (isinstance(pa, str) != isinstance(pb, str)):
+                res["violations"].append({"kind": "conflict-status-differs-from-documented-expansion",
+                                          "case": {"shape": name, "parser": kind},
+                                          "observed": pa if isinstance(pa, str) else "builds",
+                                          "expected": pb if isinstance(pb, str) else "builds"})
             continue
         for text in inputs:
             case = {"shape": name, "parser": kind, "input": text}
@@ -136,7 +216,7 @@ def run_unit(u):
             st["shapes"] += 1
             try:
                 ga = Grammar.from_string(sug + T)
-                gb = Grammar.from_string(exp + T)
+                gb = Grammar.from_string(indep(exp) + T)
             except Exception as e:
                 res["violations"].append({"kind": "grammar-rejected", "case": {"shape": sug},
                                           "observed": type(e).__name__ + ": " + str(e)[:100]})
@@ -176,13 +256,14 @@ def run_unit(u):
             for name in ("root.pg", "lib.pg"):
                 open(os.path.join(d, name), "w").write(IMPORT_CASE[name])
             ga = Grammar.from_file(os.path.join(d, "root.pg"))
-            gb = Grammar.from_string(IMPORT_CASE["flat"])
+            gb = Grammar.from_string(indep(IMPORT_CASE["flat"]))
             st["shapes"] += 1
             def drop_cache():
                 for f in os.listdir(d):
                     if f.endswith(".pgc"):
                         os.remove(os.path.join(d, f))
-            compare(res, st, "imported: " + IMPORT_CASE["root.pg"], ga, gb, inputs, before_build=drop_cache)
+            compare(res, st, "imported: " + IMPORT_CASE["root.pg"], ga, gb, inputs, before_build=drop_cache,
+                    check_structure=False)
         finally:
             shutil.rmtree(d, ignore_errors=True)
     return res
